@@ -136,17 +136,22 @@ def _seeded_job(args):
     d = tempfile.mkdtemp(prefix='vsa_st_')
     try:
         copy_py_tree(src_repo, d)
-        r = subprocess.run(['git', 'apply', '--unsafe-paths', '--directory=' + d, os.path.join(sdir, 'patch.diff')], cwd=d, capture_output=True, text=True)
-        if r.returncode != 0:
-            r = subprocess.run(['patch', '-p1', '-s', '-i', os.path.join(sdir, 'patch.diff')], cwd=d, capture_output=True, text=True)
-        if r.returncode != 0:
-            return {'seed': os.path.basename(sdir), 'status': 'skipped', 'why': 'patch does not apply to the current tree'}
+        meta = json.load(open(os.path.join(sdir, 'meta.json')))
+        patches = [os.path.join(sdir, 'patch.diff')]
+        if meta.get('base'):
+            # a seed written on top of a behaviour-preserving refactoring (benign/<id>): that refactoring is applied first
+            patches.insert(0, os.path.join(os.path.dirname(os.path.dirname(os.path.abspath(sdir))), meta['base'], 'patch.diff'))
+        for pf in patches:
+            r = subprocess.run(['git', 'apply', '--unsafe-paths', '--directory=' + d, pf], cwd=d, capture_output=True, text=True)
+            if r.returncode != 0:
+                r = subprocess.run(['patch', '-p1', '-s', '-i', pf], cwd=d, capture_output=True, text=True)
+            if r.returncode != 0:
+                return {'seed': os.path.basename(sdir), 'status': 'skipped', 'why': 'patch does not apply to the current tree'}
         with contextlib.redirect_stdout(io.StringIO()):
             res = run_rules(pid, d)
         new = [k for k in res['keys'] if k not in base_keys]
         if res['error'] or res['floor']:
             return {'seed': os.path.basename(sdir), 'status': 'analysis-error', 'detail': res['error'] or res['floor']}
-        meta = json.load(open(os.path.join(sdir, 'meta.json')))
         if meta.get('expect') == 'silent':
             # an edit that stopped breaking the property after a repair in /repo: the check must NOT fire on it
             return {'seed': os.path.basename(sdir), 'status': 'silent-as-expected' if not new else 'FALSE-ALARM', 'finding': new[:2]}
